@@ -732,7 +732,22 @@ impl AssemblyCode {
                         | AsmMnemonic::EOR
                         | AsmMnemonic::AND
                         | AsmMnemonic::ORA => accumulator = None,
-                        AsmMnemonic::LSR | AsmMnemonic::ASL => accumulator = None,
+                        AsmMnemonic::LSR | AsmMnemonic::ASL | AsmMnemonic::ROL | AsmMnemonic::ROR => {
+                            accumulator = None;
+                            // The memory forms write a cell that X or Y may mirror
+                            if !inst.dasm_operand.is_empty() {
+                                if let Some(v) = &x_register {
+                                    if !v.starts_with("#") {
+                                        x_register = None;
+                                    }
+                                }
+                                if let Some(v) = &y_register {
+                                    if !v.starts_with("#") {
+                                        y_register = None;
+                                    }
+                                }
+                            }
+                        }
                         AsmMnemonic::PLA | AsmMnemonic::PHA => accumulator = None,
                         AsmMnemonic::JSR | AsmMnemonic::JMP => {
                             accumulator = None;
